@@ -207,6 +207,7 @@ def make_shapes(env):
     def f_sstart(q, k): return q.filter(lambda s: s[k:] != '')
     def f_where(q, y): return q.where(lambda e: e.a <= y)
     def f_kw(q, v): return q.filter(a=v)
+    def f_kwb(q, v): return q.filter(b=v)        # v may be None: `IS NULL` instead of a parameter, part of the key
     def f_ordl(q, j): return q.order_by(lambda e: (e.name[j:], e.id))
     def f_orda(q): return q.order_by(E.a)
     def f_ordd(q): return q.order_by(core.desc(E.a))
@@ -231,6 +232,7 @@ def make_shapes(env):
     add('f_sstart', f_sstart, [('k', [0, 1, 2, 3])], [('k', START)], False, 'str')
     add('f_where', f_where, [('y', [1, 3, 5])], [], False, 'entity')
     add('f_kw', f_kw, [('v', [1, 3])], [], False, 'entity')
+    add('f_kwb', f_kwb, [('v', [None, 2, 6])], [], False, 'entity')
     add('f_ordl', f_ordl, [('j', [0, 1, 2])], [('j', START)], False, 'entity')
     add('f_orda', f_orda, [], [], False, 'entity')
     add('f_ordd', f_ordd, [], [], False, 'entity')
@@ -491,6 +493,8 @@ def template_programs():
     P.append(('subquery-slice', [[rq('r_sub', n=1), rq('r_sub', n=2)], [rq('r_sub', n=3)]]))
     P.append(('text-order-vs-filter', [[rq('r_plain', x=0), rq('f_ordtxt', base=0)], [rq('r_plain', x=0), rq('f_filttxt', base=0), rq('f_wheretxt', base=0)]]))
     P.append(('text-filter-vs-order', [[rq('r_plain', x=0), rq('f_wheretxt', base=0), rq('f_filttxt', base=0)], [rq('r_plain', x=0), rq('f_ordtxt', base=0)]]))
+    P.append(('order-attrs', [[rq('r_plain', x=0), rq('f_orda', base=0)], [rq('r_plain', x=0), rq('f_ordd', base=0), rq('f_orda', base=0)]]))
+    P.append(('kw-none', [[rq('r_plain', x=0), rq('f_kwb', base=0, v=None)], [rq('r_plain', x=0), rq('f_kwb', base=0, v=6), rq('f_kwb', base=0, v=None)]]))
     P.append(('twice', [[rq('r_twice', n=1), rq('r_twice', n=2)], [rq('r_twice', n=2)]]))
     P.append(('none-values', [[rq('r_stop', n=None), rq('r_stop', n=0)], [rq('r_stop', n=-1), rq('r_both', m=None, n=2)]]))
     P.append(('three', [[rq('r_stop', n=1)], [rq('r_stop', n=2)], [rq('r_stop', n=3), rq('r_stop', n=1)]]))
@@ -578,7 +582,7 @@ def check_case_static(ctx, batch, env, case, label):
 
 def part1(ctx, env):
     batch = Batch(ctx)
-    limit = ctx.scale(150, 3000)
+    limit = ctx.scale(70, 3000)
     for name, progs in template_programs():
         case = Case(env, progs)
         check_case_static(ctx, batch, env, case, name)
